@@ -6,7 +6,7 @@ from ..harness import dumps as D
 from . import decoder_common as dc
 
 TRANSLATORS = [tr_handlers.translate, tr_decoders.translate]
-MODEL_TARGETS = ['theories/ChunkCases.vo', 'theories/DecoderCases.vo']
+MODEL_TARGETS = ['theories/ChunkCases.vo', 'theories/DecoderCases.vo', 'theories/DecoderWindowCases.vo']
 PROOF_TARGETS = ['props/C08.vo']
 PROP_FILE = 'props/C08.v'
 ASSUMPTIONS = [
@@ -93,7 +93,7 @@ def run(ctx, model_ok):
                    f'({cN(r["a"])}, {cN(r["b"])}, {vlib.cbytes(bytes.fromhex(r["text"]))}))')
     # exactly once, and the enclosing syscall shows the paths in lookup order: through the public API
     path_keys = [k for k in dc.call_keys(R) if R.uses_paths(k) and k != 'BSC_posix_spawn']
-    reqs, exps, twins = [], [], []
+    reqs, exps, twins, wevs = [], [], [], []
     lookup = R.lookup_code
     for key in (rng.sample(path_keys, 12) if ctx.quick() else path_keys):
         for nl in (0, 1, 2, 3):
@@ -111,6 +111,7 @@ def run(ctx, model_ok):
             recs = [D.record(j + 1, ws, t, c | q) for j, (t, c, q, ws) in enumerate(evs)]
             reqs.append({'file': D.build_v2([(7, 1, b'p')], 0, recs).hex(), 'cfg': {'color': False}, 'calls': ['traces']})
             exps.append((key, paths, first))
+            wevs.append([[c, q, ws, t] for t, c, q, ws in evs])
             # the same records under a coarse clock (several records per tick, as on real hardware): same texts
             tick = rng.choice([2, 4, 1000])
             recs2 = [D.record(1 + j // tick, ws, t, c | q) for j, (t, c, q, ws) in enumerate(evs)]
@@ -124,8 +125,8 @@ def run(ctx, model_ok):
             ctx.failing.append({'input': {'syscall': key, 'paths': [[v, t.hex()] for v, t in paths], 'clock': 'several records per tick'},
                                 'expected': ta, 'actual': b[0]['err'] or tb,
                                 'why': 'the reassembled paths change when records share a timestamp'})
-    metas2 = []
-    for (key, paths, first), calls in zip(exps, out):
+    metas2, wmetas, wres = [], [], []
+    for wi, ((key, paths, first), calls) in enumerate(zip(exps, out)):
         c = calls[0]
         lk = [it for it in c['items'] if it[0] == 'VfsLookup']
         sc = [it for it in c['items'] if it[6] == R.code_of[key]]
@@ -145,6 +146,8 @@ def run(ctx, model_ok):
                                 'expected': 'path arguments = looked-up paths in lookup order', 'actual': text,
                                 'why': 'the syscall does not show its paths in lookup order'})
         metas2.append((key, first, [0, 5, 0, 0], 7, paths, []))
+        wmetas.append((key, wevs[wi], []))
+        wres.append({'text': text.encode('utf-8', 'surrogatepass').hex()})
     # strings and thread names through the pipeline: exactly one trace each, whatever the number of records
     sreqs, sexps = [], []
     gcode, ncode = R.code_of['TRACE_STRING_GLOBAL'], R.code_of['TRACE_STRING_THREADNAME']
@@ -195,6 +198,9 @@ def run(ctx, model_ok):
             ctx.broken.append(('correspondence', f'case files failed to evaluate: {errors[0]}'))
         for b in bad[:6]:
             ctx.broken.append(('correspondence', {'case': coq[b][:400]}))
+        # the whole window (lookups of several records, lookup-done notices, unrelated records) through the model, which
+        # reassembles the paths itself
+        dc.correspond_windows(ctx, 'C08w', R, vlib.run_impl('run_decoders.py', {'cases': []})['host'], wmetas, wres)
         o2 = dc.run_windows(R, metas2)
         dc.correspond(ctx, 'C08r', o2['host'], metas2, o2['results'])
         ctx.evaluations += len(metas2)
